@@ -181,6 +181,82 @@ def Block.value {α : Type} [Add α] [Mul α] [Div α] [NatCast α] [Transc α]
     Except PyErr (α × α) :=
   processSample Fd Ts (phases b.epoch idx) (b.first + j)
 
+/-! ### requests as the caller passes them (argument validation, rejected calls)
+
+The code converts a request size with `operator.index` (Python ints, numpy
+integer scalars of every width, 0-d integer arrays give their VALUE; floats,
+strings, lists raise `TypeError`), rejects negative sizes with `ValueError`,
+and only then touches the state.  The shape setter converts to a tuple of
+Python ints the same way before it stores anything.  So the model's request is
+the logical integer value only: element type, width and memory layout of the
+argument are not part of the state. -/
+
+/-- a request size as passed: no argument, an integer-valued object (its value),
+    or something that is not an integer -/
+inductive SizeArg
+  | default
+  | int (z : Int)
+  | notInt
+  deriving DecidableEq, Repr, Inhabited
+
+/-- a shape as passed: `None`, an integer-valued scalar, a sequence of
+    integer-valued entries, or something else (float, string, sequence with a
+    non-integer entry) -/
+inductive RawShape
+  | none
+  | int (z : Int)
+  | seq (d : List Int)
+  | notShape
+  deriving DecidableEq, Repr, Inhabited
+
+inductive RawOp
+  | gen (a : SizeArg)
+  | skip (a : SizeArg)
+  | setShape (a : RawShape)
+  deriving DecidableEq, Repr, Inhabited
+
+/-- `operator.index(n)`, then `n < 0 → ValueError` -/
+def checkSize : Int → Except PyErr Nat
+  | .ofNat n => .ok n
+  | .negSucc _ => .error .ValueError
+
+def checkDims : List Int → Except PyErr (List Nat)
+  | [] => .ok []
+  | z :: zs => do
+      let n ← checkSize z
+      let ns ← checkDims zs
+      pure (n :: ns)
+
+/-- validation of one call; `.error` = the exception the call raises -/
+def RawOp.check : RawOp → Except PyErr Op
+  | .gen .default => .ok (.gen Option.none)
+  | .gen (.int z) => (checkSize z).map fun n => .gen (some n)
+  | .gen .notInt => .error .TypeError
+  | .skip .default => .error .TypeError      -- the argument is required
+  | .skip (.int z) => (checkSize z).map .skip
+  | .skip .notInt => .error .TypeError
+  | .setShape .none => .ok (.setShape .none)
+  | .setShape (.int z) => (checkSize z).map fun n => .setShape (.int n)
+  | .setShape (.seq d) => (checkDims d).map fun ns => .setShape (.tuple ns)
+  | .setShape .notShape => .error .TypeError
+
+/-- one call on the object: a rejected call raises and changes nothing -/
+def stepR (s : State) (r : RawOp) : State × Option PyErr :=
+  match r.check with
+  | .ok op => (step s op, Option.none)
+  | .error e => (s, some e)
+
+def runR (s : State) : List RawOp → State
+  | [] => s
+  | r :: rs => runR (stepR s r).1 rs
+
+/-- the accepted calls of a raw history -/
+def accepted : List RawOp → List Op
+  | [] => []
+  | r :: rs => match r.check with
+    | .ok op => op :: accepted rs
+    | .error _ => accepted rs
+
 /-! ### model of the stepping used before the repair (finding `C14:float-stepped-arange`) -/
 
 section oldStepping
